@@ -36,14 +36,23 @@
    manager sees it when BOTH tasks have dropped their manager handle.  The send task drops both at the
    front-channel step (VNow) or when it returns (VLateDrop, VOldOrder).
 
+   WebSocket ping / inactivity detection (ClientBuilder::enable_ws_ping): section "ping / inactivity" below, a layer
+   `pstate`/`plabel`/`pstep` on top of `step`: the ping arm of send_task (a failing ping is LSendFault with an
+   empty queue), mark_as_active on every received message, the inactivity arm of read_task with
+   InactivityCheck::is_inactive transcribed (count += 1 when stale, never reset; dead when count >= max_count):
+   it ends the read task through the base label LInactive (cause CInactive), one more way for read_task to
+   break with Err.  The model has no clock: an inactivity tick carries the outcome of
+   `last_active.elapsed() >= inactive_dur` as its label.
+
    Left out: the capacity of the front channel (a caller blocked on a full channel behaves like a later
-   LNewCall), ping/inactivity (an inactivity timeout is a receive fault; a failed ping is LSendFault with an
-   empty queue), the request timeout (C09_progress shows it is not needed), the contents of messages (the
-   manager and the frame handler are Model/ClientMgr.v; `sys` below glues the two for the engine). *)
+   LNewCall), the request timeout (C09_progress shows it is not needed), the contents of messages (the
+   manager and the frame handler are Model/ClientMgr.v; `sys` below glues the two for the engine), real time
+   (which ticks are stale is the environment's choice; the engine drives it by staying silent for long or short). *)
 From JV Require Import Base.Bytes Base.Dec Model.Wire Model.ClientMgr.
 Local Open Scope N_scope.
 
-Inductive cause := CSend | CRecv | CPeer | CFrame (f : fatal).
+Inductive cause := CSend | CRecv | CPeer | CFrame (f : fatal)
+| CInactive.        (* read_task's inactivity arm: Error::Transport("WebSocket ping/pong inactive") *)
 Definition res := option cause.                      (* Result<(), Error>: None = Ok(()) *)
 
 Inductive spc :=
@@ -149,6 +158,7 @@ Inductive label :=
 (* read task *)
 | LRecvFault           (* receive() = Err *)
 | LPeerClose           (* receive() = Err(closed by peer) *)
+| LInactive            (* the inactivity arm: inactivity_check.is_inactive() = true (only through LInactTick, see below) *)
 | LBadFrame (f : fatal)  (* handle_backend_messages = Err *)
 | LRecvEnd             (* the stream ends: dead code, see header *)
 | LAnswer (h : handle) (* a frame completes the pending call h *)
@@ -203,7 +213,7 @@ Definition enabled (old : variant) (s : state) (l : label) : bool :=
   | LSClosedSeen => match sp s with SAwaitClosed => rx_closed s | _ => false end
   | LSCloseFront => match sp s with SCloseFront | OCloseFront _ => true | _ => false end
   | LSTransportClosed => match sp s with SClosing | OClosing _ => true | _ => false end
-  | LRecvFault | LPeerClose | LBadFrame _ | LRecvEnd => rp_is_loop s && negb (rx_closed s)
+  | LRecvFault | LPeerClose | LInactive | LBadFrame _ | LRecvEnd => rp_is_loop s && negb (rx_closed s)
   | LAnswer h => rp_is_loop s && negb (rx_closed s) && is_inmgr (get_c s h)
   | LRNotice => rp_is_loop s && rx_closed s
   | LRReport => match rp s with RReport _ => can_push s | _ => false end
@@ -247,6 +257,7 @@ Definition effect (old : variant) (s : state) (l : label) : state :=
     end
   | LRecvFault => set_rp s (RReport (Some CRecv))
   | LPeerClose => set_rp s (RReport (Some CPeer))
+  | LInactive => set_rp s (RReport (Some CInactive))
   | LBadFrame f => set_rp s (RReport (Some (CFrame f)))
   | LRecvEnd => set_recvend (set_rp s (RReport None))
   | LAnswer h => set_c s h (CDone OOk)
@@ -320,6 +331,114 @@ Fixpoint drive (old : variant) (slow : bool) (fuel : nat) (s : state) : state :=
   | S f => match next_proto old slow s with Some l => drive old slow f (step old s l) | None => s end
   end.
 
+(* ================= ping / inactivity (ClientBuilder::enable_ws_ping(PingConfig)) =================
+   send_task:   _ = ping_interval.next() => if let Err(err) = sender.send_ping().await { break Err(Error::Transport(..)) }
+                (the select is biased: from_frontend.recv() is looked at first, so a ping is written only when
+                the front queue is empty)
+   read_task:   maybe_msg = backend_event.next() => { inactivity_check.mark_as_active(); ... }     every message,
+                ReceivedMessage::Pong included (handle_backend_messages answers a Pong with Ok(vec![]))
+                _ = inactivity_stream.next() => if inactivity_check.is_inactive() { break Err(Error::Transport(
+                                                     "WebSocket ping/pong inactive")) }
+   utils.rs:    is_inactive: if last_active.elapsed() >= inactive_dur { count += 1 }  count >= max_count
+                mark_as_active: last_active = Instant::now()          (count is NOT reset)
+   `last_active` is real time; the model has no clock, so the inactivity tick is labelled with the outcome of the
+   comparison (`stale`).  p_active = "a message has been received since the last inactivity tick" is what an
+   on-time tick sees of the clock: the two streams have the same period inactive_dur, hence an on-time tick
+   after a message in the same period is not stale (`on_time`); nothing in `pstep` depends on it. *)
+Record pstate := {
+  pb : state;           (* the shutdown protocol state *)
+  p_max : N;            (* PingConfig::max_failures = InactivityCheck::max_count (the builder asserts > 0) *)
+  p_count : N;          (* InactivityCheck::count *)
+  p_active : bool;      (* a message was received since the last inactivity tick *)
+  h_pings : N           (* HISTORY: ping frames written *)
+}.
+
+Inductive plabel :=
+| LBase (l : label)
+| LPingTick (ok : bool)       (* the ping arm of send_task; ok = send_ping() returned Ok *)
+| LPong                       (* a Pong frame (or any frame that completes nothing) received *)
+| LInactTick (stale : bool).  (* the inactivity arm of read_task; stale = last_active.elapsed() >= inactive_dur *)
+
+Definition pinit (maxf : N) : pstate := {| pb := init; p_max := maxf; p_count := 0; p_active := false; h_pings := 0 |}.
+
+Definition set_pb (p : pstate) (s : state) : pstate :=
+  {| pb := s; p_max := p_max p; p_count := p_count p; p_active := p_active p; h_pings := h_pings p |}.
+Definition set_active (p : pstate) (b : bool) : pstate :=
+  {| pb := pb p; p_max := p_max p; p_count := p_count p; p_active := b; h_pings := h_pings p |}.
+Definition set_count (p : pstate) (c : N) : pstate :=
+  {| pb := pb p; p_max := p_max p; p_count := c; p_active := p_active p; h_pings := h_pings p |}.
+Definition add_ping (p : pstate) : pstate :=
+  {| pb := pb p; p_max := p_max p; p_count := p_count p; p_active := p_active p; h_pings := h_pings p + 1 |}.
+
+(* the base labels that are a message taken from backend_event *)
+Definition is_received (l : label) : bool :=
+  match l with LRecvFault | LPeerClose | LBadFrame _ | LRecvEnd | LAnswer _ => true | _ => false end.
+
+Definition penabled (old : variant) (p : pstate) (l : plabel) : bool :=
+  match l with
+  | LBase LInactive => false                      (* only the inactivity check makes that arm break *)
+  | LBase l' => enabled old (pb p) l'
+  | LPingTick _ => sp_is_loop (pb p) && negb (rx_closed (pb p)) && is_none (hd_error (fqueue (pb p)))
+  | LPong | LInactTick _ => rp_is_loop (pb p) && negb (rx_closed (pb p))
+  end.
+
+(* InactivityCheck::is_inactive, the clock's answer given *)
+Definition is_inactive (p : pstate) (stale : bool) : pstate * bool :=
+  let c := if stale then p_count p + 1 else p_count p in
+  (set_count p c, p_max p <=? c).
+
+Definition peffect (old : variant) (p : pstate) (l : plabel) : pstate :=
+  match l with
+  | LBase l' => set_pb (if is_received l' then set_active p true else p) (step old (pb p) l')
+  | LPingTick true => add_ping p
+  | LPingTick false => set_pb p (step old (pb p) LSendFault)      (* the front queue is empty: nothing is popped *)
+  | LPong => set_active p true
+  | LInactTick stale =>
+    let '(p1, dead) := is_inactive (set_active p false) stale in
+    if dead then set_pb p1 (step old (pb p1) LInactive) else p1
+  end.
+
+Definition pstep (old : variant) (p : pstate) (l : plabel) : pstate :=
+  if penabled old p l then peffect old p l else p.
+Definition prun (old : variant) (p : pstate) (tr : list plabel) : pstate := fold_left (pstep old) tr p.
+
+(* the tick is processed on time: a message received since the previous tick makes it fresh *)
+Definition on_time (p : pstate) (l : plabel) : bool :=
+  match l with LInactTick true => negb (p_active p) | _ => true end.
+
+(* every tick the read task processes is on time and a message was received since the previous one *)
+Fixpoint regular (old : variant) (p : pstate) (tr : list plabel) : Prop :=
+  match tr with
+  | [] => True
+  | l :: tr' =>
+    (forall b, l = LInactTick b -> penabled old p l = true -> p_active p = true /\ on_time p l = true) /\
+    regular old (pstep old p l) tr'
+  end.
+
+(* the stale ticks of a trace (those the read task processes) *)
+Fixpoint stale_ticks (old : variant) (p : pstate) (tr : list plabel) : N :=
+  match tr with
+  | [] => 0
+  | l :: tr' =>
+    (match l with LInactTick true => if penabled old p l then 1 else 0 | _ => 0 end) + stale_ticks old (pstep old p l) tr'
+  end.
+
+(* the base trace a ping-level label stands for *)
+Definition base_of (old : variant) (p : pstate) (l : plabel) : list label :=
+  if penabled old p l then
+    match l with
+    | LBase l' => [l']
+    | LPingTick false => [LSendFault]
+    | LInactTick stale => if snd (is_inactive (set_active p false) stale) then [LInactive] else []
+    | _ => []
+    end
+  else [].
+Fixpoint base_trace (old : variant) (p : pstate) (tr : list plabel) : list label :=
+  match tr with
+  | [] => []
+  | l :: tr' => base_of old p l ++ base_trace old (pstep old p l) tr'
+  end.
+
 (* ================= arithmetic of the frame handler (ClientMgr.handle_back) =================
    The places where the Rust code does unchecked arithmetic or indexing on values that come from the server. *)
 
@@ -354,7 +473,10 @@ Inductive cmd :=
 | KIsConn
 | KNext (h : handle)
 | KBack (raw : bytes)
-| KFailSend | KRecvFault | KPeerClose | KReleaseClose | KDropClient | KSettle.
+| KFailSend | KRecvFault | KPeerClose | KReleaseClose | KDropClient | KSettle
+| KPing                      (* one tick of ping_interval *)
+| KPong                      (* ReceivedMessage::Pong *)
+| KInact (stale : bool).     (* one tick of inactivity_stream *)
 
 Inductive sout :=
 | YWire (raw : bytes)
@@ -363,7 +485,8 @@ Inductive sout :=
 | YDisc (h : handle) (o : obs)           (* an on_disconnect() future completed *)
 | YConn (b : bool)
 | YNext (r : nextres)
-| YX (k : N).                            (* 0: transport close() entered, 1: sender dropped, 2: receiver dropped *)
+| YX (k : N)                             (* 0: transport close() entered, 1: sender dropped, 2: receiver dropped *)
+| YPing.                                 (* a ping frame written *)
 
 Record sys := {
   y_cs : state;
@@ -372,19 +495,24 @@ Record sys := {
   y_released : bool;
   y_mdead : bool;                (* the manager has been dropped *)
   y_pend : list (handle * ClientMgr.ev);
-  y_ondisc : list handle
+  y_ondisc : list handle;
+  y_ping : option N;             (* enable_ws_ping: max_failures *)
+  y_count : N;                   (* InactivityCheck::count *)
+  y_active : bool
 }.
 
-Definition sys_init (slow : bool) : sys :=
+Definition sys_init (slow : bool) (ping : option N) : sys :=
   {| y_cs := init; y_ms := ClientMgr.init false 1024 8 false; y_slow := slow; y_released := false; y_mdead := false;
-     y_pend := []; y_ondisc := [] |}.
+     y_pend := []; y_ondisc := []; y_ping := ping; y_count := 0; y_active := false |}.
 
 Definition upd_cs (y : sys) (c : state) : sys :=
   {| y_cs := c; y_ms := y_ms y; y_slow := y_slow y; y_released := y_released y; y_mdead := y_mdead y;
-     y_pend := y_pend y; y_ondisc := y_ondisc y |}.
+     y_pend := y_pend y; y_ondisc := y_ondisc y;
+        y_ping := y_ping y; y_count := y_count y; y_active := y_active y |}.
 Definition upd_ms (y : sys) (x : ClientMgr.st) : sys :=
   {| y_cs := y_cs y; y_ms := x; y_slow := y_slow y; y_released := y_released y; y_mdead := y_mdead y;
-     y_pend := y_pend y; y_ondisc := y_ondisc y |}.
+     y_pend := y_pend y; y_ondisc := y_ondisc y;
+        y_ping := y_ping y; y_count := y_count y; y_active := y_active y |}.
 
 Definition mgr_outs (o : list ClientMgr.out) : list sout :=
   flat_map (fun x => match x with OWire raw => [YWire raw] | OComplete h r => [YComp h r] | OFatal _ => [] end) o.
@@ -449,18 +577,32 @@ Definition diff_x (a b : state) : list sout :=
   (if negb (sp_exited a) && sp_exited b then [YX 1] else []) ++
   (if negb (rp_exited a) && rp_exited b then [YX 2] else []).
 
+(* one label of the ping layer (a no-op when the client was built with disable_ws_ping) *)
+Definition ping_step (y : sys) (l : plabel) : sys :=
+  match y_ping y with
+  | None => y
+  | Some maxf =>
+    let p := pstep VNow {| pb := y_cs y; p_max := maxf; p_count := y_count y; p_active := y_active y; h_pings := 0 |} l in
+    {| y_cs := pb p; y_ms := y_ms y; y_slow := y_slow y; y_released := y_released y; y_mdead := y_mdead y;
+       y_pend := y_pend y; y_ondisc := y_ondisc y; y_ping := y_ping y; y_count := p_count p; y_active := p_active p |}
+  end.
+Definition ping_on (y : sys) : bool := negb (is_none (y_ping y)).
+
 Definition do_cmd (y : sys) (k : cmd) : sys * list sout :=
   let c := y_cs y in
   match k with
   | KCall h e =>
     ({| y_cs := step VNow c (LNewCall h); y_ms := y_ms y; y_slow := y_slow y; y_released := y_released y;
-        y_mdead := y_mdead y; y_pend := (h, e) :: y_pend y; y_ondisc := y_ondisc y |}, [])
+        y_mdead := y_mdead y; y_pend := (h, e) :: y_pend y; y_ondisc := y_ondisc y;
+        y_ping := y_ping y; y_count := y_count y; y_active := y_active y |}, [])
   | KOnDisc h =>
     ({| y_cs := step VNow c (LOnDisc h); y_ms := y_ms y; y_slow := y_slow y; y_released := y_released y;
-        y_mdead := y_mdead y; y_pend := y_pend y; y_ondisc := h :: y_ondisc y |}, [])
+        y_mdead := y_mdead y; y_pend := y_pend y; y_ondisc := h :: y_ondisc y;
+        y_ping := y_ping y; y_count := y_count y; y_active := y_active y |}, [])
   | KIsConn => (y, if dropped c then [] else [YConn (is_connected c)])
   | KNext h => let '(m', r) := poll_next (y_ms y) h in (upd_ms y m', [YNext r])
   | KBack raw =>
+    let y := ping_step y LPong in            (* mark_as_active: every received message *)
     if enabled VNow c LRecvFault then        (* the read task is in its loop *)
       let '(m1, o1, _) := ClientMgr.apply (y_ms y) (Back raw) in
       if newly_dying (y_ms y) m1 then
@@ -481,9 +623,17 @@ Definition do_cmd (y : sys) (k : cmd) : sys * list sout :=
   | KPeerClose => (upd_cs y (step VNow c LPeerClose), [])
   | KReleaseClose =>
     ({| y_cs := c; y_ms := y_ms y; y_slow := y_slow y; y_released := true; y_mdead := y_mdead y;
-        y_pend := y_pend y; y_ondisc := y_ondisc y |}, [])
+        y_pend := y_pend y; y_ondisc := y_ondisc y;
+        y_ping := y_ping y; y_count := y_count y; y_active := y_active y |}, [])
   | KDropClient => (upd_cs y (step VNow c LClientDrop), [])
   | KSettle => (y, [])
+  | KPing =>
+    if ping_on y && penabled VNow {| pb := c; p_max := 0; p_count := 0; p_active := false; h_pings := 0 |} (LPingTick true) then
+      if sendfail (y_ms y) then (ping_step (upd_ms y (upd_sendfail (y_ms y) false)) (LPingTick false), [])
+      else (ping_step y (LPingTick true), [YPing])
+    else (y, [])
+  | KPong => (ping_step y LPong, [])
+  | KInact stale => (ping_step y (LInactTick stale), [])
   end.
 
 Definition script_step (y : sys) (k : cmd) : sys * list sout :=
@@ -494,7 +644,8 @@ Definition script_step (y : sys) (k : cmd) : sys * list sout :=
   let y3 :=
     if sender_let_go VNow c2 && rp_exited c2 && negb (y_mdead y2) then     (* both manager handles are gone: the sinks go *)
       {| y_cs := c2; y_ms := fst (kill (y_ms y2) FTransport); y_slow := y_slow y2; y_released := y_released y2;
-         y_mdead := true; y_pend := y_pend y2; y_ondisc := y_ondisc y2 |}
+         y_mdead := true; y_pend := y_pend y2; y_ondisc := y_ondisc y2;
+         y_ping := y_ping y2; y_count := y_count y2; y_active := y_active y2 |}
     else y2 in
   (y3, o1 ++ o2 ++ diff_done (y_cs y) c2 (y_ondisc y2) ++ diff_x (y_cs y) c2).
 
